@@ -102,10 +102,11 @@ def load_known(prop: str):
 
 def write_evidence(prop: str, tier: str, seed: int, coverage: dict, assumptions: List[str],
                    wall: float, violations: int):
-    os.makedirs(os.path.join(VERIF, "evidence"), exist_ok=True)
+    evdir = os.environ.get("VERIF_EVIDENCE_DIR") or os.path.join(VERIF, "evidence")
+    os.makedirs(evdir, exist_ok=True)
     ev = {"property_id": prop, "tier": tier, "seed": seed, "level": LEVEL, "coverage": coverage,
           "assumptions": assumptions, "wall_s": round(wall, 3), "violations": violations}
-    path = os.path.join(VERIF, "evidence", f"{prop}.json")
+    path = os.path.join(evdir, f"{prop}.json")
     tmp = path + ".tmp"
     with open(tmp, "w") as f:
         json.dump(ev, f, indent=1, default=str, sort_keys=True)
@@ -113,7 +114,7 @@ def write_evidence(prop: str, tier: str, seed: int, coverage: dict, assumptions:
 
 
 def write_replay(prop: str, v: dict) -> str:
-    d = os.path.join(VERIF, "replays", prop)
+    d = os.path.join(os.environ.get("VERIF_REPLAY_DIR") or os.path.join(VERIF, "replays"), prop)
     os.makedirs(d, exist_ok=True)
     path = os.path.join(d, f"{v['key']}.json")
     with open(path, "w") as f:
